@@ -477,8 +477,8 @@ pub fn run(opts: &Opts) -> Report {
     }
     let par = std::thread::available_parallelism().map(|n| n.get()).unwrap_or(8).min(16);
     let t0 = Instant::now();
-    let mut outcomes = run_jobs(&jobs, 4000, par, Duration::from_secs(20));
-    let ladder_out = run_jobs(&ladders, 8, par, Duration::from_secs(20));
+    let mut outcomes = run_jobs(&jobs, 4000, par, Duration::from_secs(30));
+    let ladder_out = run_jobs(&ladders, 8, par, Duration::from_secs(30));
     rep.notes.push(format!("{} jobs + {} ladder/reference jobs in child processes, {:.1}s", jobs.len(), ladders.len(), t0.elapsed().as_secs_f64()));
     let all_jobs: Vec<&Job> = jobs.iter().chain(ladders.iter()).collect();
     outcomes.extend(ladder_out);
@@ -503,7 +503,7 @@ pub fn run(opts: &Opts) -> Report {
                 match class {
                     "PANIC" => "compile/evaluate panicked",
                     "ABORT" => "compile/evaluate aborted the process (stack exhaustion or abort)",
-                    "TIMEOUT" => "compile/evaluate did not return within 20 s",
+                    "TIMEOUT" => "compile/evaluate did not return within 30 s",
                     _ => "the child process could not be run",
                 },
             );
